@@ -306,7 +306,11 @@ func (r *runner) checkNotifications(bad func(string, ...any), classes map[string
 }
 
 func (r *runner) failf(format string, args ...any) {
-	r.conn.dbapi.VerifShutdown()
+	if r.conn.ws != nil {
+		_ = r.conn.ws.Close()
+	} else {
+		r.conn.dbapi.VerifShutdown()
+	}
 	r.t.Fatalf("%s\n--- case ---\n%s\n--- all replies ---\n%s", fmt.Sprintf(format, args...), r.c.render(), renderReplies(r.conn.snapshot()))
 }
 
